@@ -89,6 +89,7 @@ type world struct {
 	knownNames []string // operation names seen by clients
 	maxOps     int
 	faultFree  bool
+	fair       bool // C04 workload shape
 	sequential bool
 	// timePressure weights clock advances against actor progress.
 	timePressure int
@@ -196,7 +197,10 @@ func newWorld(r *simrun.Run, prop string) *world {
 	// Per-property workload shaping.
 	switch prop {
 	case "C04":
+		// The policy check wants deep queues and few, well-behaved workers.
 		w.faultFree = true
+		w.fair = true
+		w.honest = true
 	}
 
 	w.cfg = scheduler.InMemoryBuildQueueConfiguration{
@@ -213,6 +217,9 @@ func newWorld(r *simrun.Run, prop string) *world {
 
 	// Queues.
 	nq := 1 + t.Choice(3)
+	if w.fair {
+		nq = 1
+	}
 	seen := map[string]bool{}
 	for len(w.queues) < nq {
 		q := &queueSpec{prefix: pick(t, prefixes), platform: pick(t, platforms)}
@@ -228,7 +235,7 @@ func newWorld(r *simrun.Run, prop string) *world {
 			continue
 		}
 		seen[id] = true
-		q.predeclared = t.Bool(2, 3)
+		q.predeclared = t.Bool(2, 3) || w.fair
 		if q.predeclared {
 			q.sizeClasses = pick(t, [][]uint32{{0}, {1, 4}, {1, 2, 8}, {3}})
 			q.stickiness = pick(t, [][]time.Duration{nil, {30 * time.Second}, {30 * time.Second, 5 * time.Second}, {time.Second, time.Minute, time.Minute}})
@@ -245,7 +252,7 @@ func newWorld(r *simrun.Run, prop string) *world {
 	for i := 0; i < na; i++ {
 		var inst string
 		var plat *remoteexecution.Platform
-		if t.Bool(3, 4) {
+		if t.Bool(3, 4) || w.fair {
 			// Derived from a queue: instance name has the queue's prefix.
 			q := pick(t, w.queues)
 			plat = q.platform
@@ -326,6 +333,10 @@ func (w *world) run() {
 	nc := 1 + t.Choice(4)
 	nw := 1 + t.Choice(4)
 	w.maxOps = 3 + t.Choice(10)
+	if w.fair {
+		nc = 3 + t.Choice(6)
+		nw = 1 + t.Choice(3)
+	}
 	for i := 0; i < nc; i++ {
 		c := newClient(w, i)
 		w.clients = append(w.clients, c)
